@@ -131,12 +131,15 @@ Qed.
 Ltac inv_pair H := inversion H; subst; clear H.
 
 Lemma on_stream_frame : forall s sid d fin x s', on_stream s sid d fin = (x, s') ->
-  futs s' = futs s /\ cwait s' = cwait s /\ pings s' = pings s /\ x <> Some X_INVALID_STATE.
+  futs s' = futs s /\ cwait s' = cwait s /\ pings s' = pings s /\ closed s' = closed s /\
+  timer s' = timer s /\ timer_at s' = timer_at s /\ ltimers s' = ltimers s /\ ttask s' = ttask s /\
+  soon s' = soon s /\ dirty s' = dirty s /\
+  (x = None \/ x = Some X_FEED_AFTER_EOF).
 Proof.
   intros s sid d fin x s' H. unfold on_stream in H.
   destruct (rd_get sid (readers s)) as [r|]; simpl in H.
-  - destruct (rd_eof r); inv_pair H; simpl; repeat split; discriminate.
-  - inv_pair H; simpl; repeat split; discriminate.
+  - destruct d; [|destruct (rd_eof r)]; inv_pair H; simpl; repeat split; auto.
+  - destruct d; [|destruct (closed s) eqn:Cl]; inv_pair H; simpl; repeat split; auto.
 Qed.
 
 (* under Inv an event never double-resolves a future, and Inv is kept *)
@@ -184,7 +187,8 @@ Proof.
         destruct Hj; [auto|right; eapply ping_del_sub; eauto].
     + inv_pair H. split; [discriminate|split; assumption].
   - (* stream data *)
-    destruct (on_stream_frame _ _ _ _ _ _ H) as [A [B [C D]]]. split; [exact D|].
+    destruct (on_stream_frame _ _ _ _ _ _ H) as [A [B [C [_ [_ [_ [_ [_ [_ [_ D]]]]]]]]]].
+    split; [destruct D as [->| ->]; discriminate|].
     unfold Inv, refs in *. rewrite A, B, C. split; assumption.
   - destruct (hx =? 0); inv_pair H; (split; [try discriminate|split; assumption]).
     apply handler_ne_invalid.
@@ -247,7 +251,7 @@ Proof.
       * rewrite nth_set_other in Hj by auto. apply NO in Hj. apply in_app_or in Hj. apply in_or_app.
         destruct Hj; [auto|right; eapply ping_del_keeps; eauto].
     + inv_pair H. split; [assumption|discriminate].
-  - destruct (on_stream_frame _ _ _ _ _ _ H) as [A [B [C D]]]. split; [|discriminate].
+  - destruct (on_stream_frame _ _ _ _ _ _ H) as [A [B [C _]]]. split; [|discriminate].
     unfold NoOrphan, refs in *. rewrite A, B, C. assumption.
   - destruct (hx =? 0); inv_pair H; (split; [assumption|discriminate]).
   - destruct (hx =? 0); inv_pair H; (split; [assumption|discriminate]).
@@ -397,9 +401,7 @@ Proof.
         destruct (fail_all _ _) as [[y|] f]; inv_pair H; simpl; auto 10.
       + destruct (fail_all _ _) as [[y|] f]; inv_pair H; simpl; auto 10.
     - destruct (ping_get uid (pings s)); simpl in H; [destruct (resolve _ _ _)|]; inv_pair H; simpl; auto 10.
-    - unfold on_stream in H. destruct (rd_get sid (readers s)) as [r|]; simpl in H.
-      + destruct (rd_eof r); inv_pair H; simpl; auto 10.
-      + inv_pair H; simpl; auto 10.
+    - destruct (on_stream_frame _ _ _ _ _ _ H) as [_ [_ [_ [_ [A1 [A2 [A3 [A4 [A5 [A6 _]]]]]]]]]]. auto 10.
     - destruct (hx =? 0); inv_pair H; auto 10.
     - destruct (hx =? 0); inv_pair H; auto 10.
     - inv_pair H; auto 10. }
@@ -428,7 +430,7 @@ Proof.
       destruct (fail_all _ _) as [[z|] f] eqn:FA; inv_pair H. left. eapply fail_all_exn; eauto.
     + destruct (fail_all _ _) as [[z|] f] eqn:FA; inv_pair H. left. eapply fail_all_exn; eauto.
   - destruct (ping_get uid (pings s)); simpl in H; [destruct (resolve _ _ _)|]; inv_pair H; auto.
-  - unfold on_stream in H. destruct (rd_get sid (readers s)) as [r|]; simpl in H; [destruct (rd_eof r)|]; inv_pair H; auto.
+  - apply on_stream_frame in H. destruct H as [_ [_ [_ [_ [_ [_ [_ [_ [_ [_ [D|D]]]]]]]]]]]; inv_pair D; auto.
   - destruct (hx =? 0); inv_pair H; right; right; eexists; reflexivity.
   - destruct (hx =? 0); inv_pair H; right; right; eexists; reflexivity.
   - inv_pair H.
@@ -443,7 +445,7 @@ Proof.
 Qed.
 
 Ltac ne_code := let X := fresh in
-  unfold R_INVALID, X_INVALID_STATE, X_TIMER_NONE, X_ALREADY_AWAITING; intros X; inversion X.
+  unfold R_INVALID, X_INVALID_STATE, X_TIMER_NONE, X_ALREADY_AWAITING, X_CONNECTION_ERROR; intros X; inversion X.
 
 (* ---------- steps ----------------------------------------------------------------------------------- *)
 Definition Good (s : st) : Prop := Inv s /\ TimerOk s /\ SoonOk s.
@@ -512,6 +514,7 @@ Proof.
     destruct (transmit_frame s gt evs_tx) as [T1 [T2 T3]].
     split; [apply (frame_inv s _ T1 T2 T3); assumption|]. split; [apply transmit_timer; assumption|apply transmit_soonok].
   - (* ping *)
+    destruct (closed s); [inv_pair H; split; [ne_code|split; [ne_code|exact (conj I (conj TO SO))]]|].
     inv_pair H. split; [discriminate|]. split; [discriminate|].
     match goal with |- Good (transmit ?S0 _ _) => destruct (transmit_frame S0 gt evs_tx) as [T1 [T2 T3]]; set (s0 := S0) in * end.
     split; [|split; [apply transmit_timer; exact TO|apply transmit_soonok]].
@@ -533,8 +536,9 @@ Proof.
         -- rewrite nth_error_app1; [apply P; apply in_or_app; auto|apply LT; apply in_or_app; auto].
   - (* wait_connected *)
     destruct (cwait s) as [c|] eqn:C; [inv_pair H; split; [ne_code|split; [ne_code|exact (conj I (conj TO SO))]]|].
-    destruct (connected s); inv_pair H; (split; [discriminate|]; split; [discriminate|]).
-    + exact (conj I (conj TO SO)).
+    destruct (connected s); [inv_pair H; split; [discriminate|split; [discriminate|exact (conj I (conj TO SO))]]|].
+    destruct (closed s); [inv_pair H; split; [ne_code|split; [ne_code|exact (conj I (conj TO SO))]]|].
+    inv_pair H. split; [discriminate|]. split; [discriminate|].
     + split; [|split; assumption]. destruct I as [ND P].
       assert (forall j, In j (refs s) -> (j < length (futs s))%nat) as LT.
       { intros j Hj. apply P in Hj. apply nth_error_Some. congruence. }
@@ -638,7 +642,7 @@ Proof.
     eapply frame_inv; [exact T1|exact T2|exact T3|exact NO].
   - inv_pair H. destruct (transmit_frame s gt evs_tx) as [T1 [T2 T3]]. apply (frame_inv s _ T1 T2 T3); assumption.
   - inv_pair H. destruct (transmit_frame s gt evs_tx) as [T1 [T2 T3]]. apply (frame_inv s _ T1 T2 T3); assumption.
-  - inv_pair H.
+  - destruct (closed s); [inv_pair H; assumption|]. inv_pair H.
     match goal with |- NoOrphan (transmit ?S0 _ _) => destruct (transmit_frame S0 gt evs_tx) as [T1 [T2 T3]]; set (s0 := S0) in * end.
     apply (frame_inv s0 _ T1 T2 T3). unfold NoOrphan, refs in *. subst s0. simpl. intros j Hj.
     apply in_or_app. destruct (Nat.lt_ge_cases j (length (futs s))) as [LT|GE].
@@ -648,7 +652,8 @@ Proof.
       assert (j < length (futs s ++ [FPending]))%nat as L by (apply nth_error_Some; congruence).
       rewrite app_length in L. simpl in L. lia.
   - destruct (cwait s) as [c|] eqn:C; [inv_pair H; assumption|].
-    destruct (connected s); inv_pair H; [assumption|].
+    destruct (connected s); [inv_pair H; assumption|].
+    destruct (closed s); inv_pair H; [assumption|].
     unfold NoOrphan, refs in *. rewrite C in *. simpl in *. intros j Hj.
     destruct (Nat.lt_ge_cases j (length (futs s))) as [LT|GE].
     + rewrite nth_error_app1 in Hj by assumption. right. apply NO. assumption.
@@ -711,69 +716,136 @@ Proof.
   eapply process_terminated; [| |exact IN|exact E]; [apply G|exact NO].
 Qed.
 
-(* What the code does NOT guarantee: a waiter created after ConnectionTerminated was processed is never
-   resolved.  ConnectionTerminated is the connection's last event, so no later callback carries an event;
-   the future of a ping() issued then stays pending under every continuation without events. *)
-Definition no_events (o : op) : Prop :=
-  match o with
-  | ORecv evs _ etx => evs = [] /\ etx = []
-  | OTimer _ _ evs _ etx => evs = [] /\ etx = []
-  | ORunSoon _ etx | OTransmit _ etx | OClose _ etx | OPing _ _ etx => etx = []
-  | _ => True
-  end.
+(* ---------- after termination ---------------------------------------------------------------------------
+   CInv: once the closed event is set, no future is pending -- and none can become pending again, because
+   ping() and wait_connected() on a closed protocol finish at once with ConnectionError. *)
+Definition CInv (s : st) : Prop := closed s = true -> AllDone s.
 
-Definition late_ping : list op := [ORecv [EvTerminated 0] None []; OPing 1 None []].
-
-Lemma quiet_keeps_pending : forall ops s, evq s = [] -> Forall no_events ops ->
-  nth_error (futs s) O = Some FPending -> nth_error (futs (run s ops)) O = Some FPending /\ evq (run s ops) = [].
+Lemma handle_event_closed : forall e s x s', handle_event e s = (x, s') ->
+  closed s' = true -> closed s = true \/ (e = EvTerminated 0 /\ x = None).
 Proof.
-  induction ops as [|o t IH]; intros s Q NE P; simpl; [auto|].
-  inversion NE as [|? ? N1 N2]; subst.
-  assert (forall s1 gt, evq s1 = [] -> nth_error (futs s1) O = Some FPending ->
-            evq (transmit s1 gt []) = [] /\ nth_error (futs (transmit s1 gt [])) O = Some FPending) as TR.
-  { intros s1 gt Q1 P1. destruct (transmit_frame s1 gt []) as [T1 _]. rewrite T1. split; [|assumption].
-    unfold transmit. destruct (timer s1); [destruct (negb (oz_eqb (timer_at s1) gt))|]; destruct gt; simpl; rewrite Q1; reflexivity. }
-  assert (forall s1, evq s1 = [] -> nth_error (futs s1) O = Some FPending ->
-            evq (transmit_soon s1) = [] /\ nth_error (futs (transmit_soon s1)) O = Some FPending) as TS.
-  { intros s1 Q1 P1. unfold transmit_soon. destruct (ttask s1); simpl; auto. }
-  destruct o; simpl in *.
-  - destruct N1 as [-> ->]. rewrite Q. simpl. destruct (TR (with_evq (with_evq s []) []) gt) as [A B]; [reflexivity|exact P|].
-    apply IH; assumption.
-  - destruct N1 as [-> ->]. destruct (memz w (ltimers s)); simpl; [|apply IH; assumption].
-    destruct (timer_at s); simpl; [|apply IH; assumption].
-    rewrite Q. simpl.
-    match goal with |- context [transmit ?S0 gt []] => destruct (TR S0 gt) as [A B]; [reflexivity|exact P|] end.
-    apply IH; assumption.
-  - subst. destruct (soon s); simpl; [apply IH; assumption|].
-    match goal with |- context [transmit ?S0 gt []] => destruct (TR S0 gt) as [A B]; [exact Q|exact P|] end.
-    apply IH; assumption.
-  - subst. destruct (TR s gt Q P) as [A B]. apply IH; assumption.
-  - subst. destruct (TR s gt Q P) as [A B]. apply IH; assumption.
-  - subst.
-    match goal with |- context [transmit ?S0 gt []] => destruct (TR S0 gt) as [A B]; [exact Q| |] end.
-    { simpl. destruct (futs s); [discriminate|exact P]. }
-    apply IH; assumption.
-  - destruct (cwait s); simpl; [apply IH; assumption|]. destruct (connected s); simpl; [apply IH; assumption|].
-    apply IH; [exact Q|assumption|]. simpl. destruct (futs s); [discriminate|exact P].
-  - destruct (TS (set_dirty s) Q P) as [A B]. apply IH; assumption.
-  - destruct (memz sid (wclosing s)); simpl; [apply IH; assumption|].
-    match goal with |- context [transmit_soon ?S0] => destruct (TS S0 Q P) as [A B] end. apply IH; assumption.
-  - apply IH; assumption.
-  - destruct (TS s Q P) as [A B]. apply IH; assumption.
+  intros e s x s' H Cl. destruct e as [|hx|uid|sid d fin|cid hx|cid hx|]; simpl in H.
+  - destruct (cwait s); simpl in H; [destruct (resolve _ _ _)|]; inv_pair H; simpl in Cl; auto.
+  - destruct (hx =? 0) eqn:E; simpl in H; [|inv_pair H; auto].
+    assert (hx = 0) by lia. subst hx.
+    destruct (cwait s); simpl in H.
+    + destruct (resolve _ _ _); simpl in H; [|inv_pair H; simpl in Cl; auto].
+      destruct (fail_all _ _) as [[y|] f]; inv_pair H; simpl in Cl; auto.
+    + destruct (fail_all _ _) as [[y|] f]; inv_pair H; simpl in Cl; auto.
+  - destruct (ping_get uid (pings s)); simpl in H; [destruct (resolve _ _ _)|]; inv_pair H; simpl in Cl; auto.
+  - apply on_stream_frame in H. destruct H as [_ [_ [_ [A _]]]]. left. congruence.
+  - destruct (hx =? 0); inv_pair H; auto.
+  - destruct (hx =? 0); inv_pair H; auto.
+  - inv_pair H; auto.
 Qed.
 
-Lemma waiter_after_termination_refuted_l :
-  uids_fresh st_init late_ping /\
-  closed (run st_init late_ping) = true /\
-  forall more, Forall no_events more ->
-    nth_error (futs (run st_init (late_ping ++ more))) O = Some FPending.
+Lemma handle_event_cinv : forall e s x s', Inv s -> NoOrphan s -> CInv s -> handle_event e s = (x, s') -> CInv s'.
 Proof.
-  split; [simpl; auto|]. split; [reflexivity|].
-  intros more NE. assert (run st_init (late_ping ++ more) = run (run st_init late_ping) more) as R.
-  { generalize st_init. induction late_ping as [|o t IH]; intros s; simpl; [reflexivity|].
-    destruct (step s o) as [[x out] s']. apply IH. }
-  rewrite R. apply quiet_keeps_pending; [reflexivity|assumption|reflexivity].
+  intros e s x s' I NO C H Cl. destruct (handle_event_closed _ _ _ _ H Cl) as [Cs|[-> ->]].
+  - eapply handle_event_alldone; [apply C; exact Cs|exact H].
+  - eapply handle_event_orphan; eauto.
 Qed.
+
+Lemma with_evq_cinv : forall s q, CInv (with_evq s q) <-> CInv s.
+Proof. intros. unfold CInv, AllDone. simpl. tauto. Qed.
+
+Lemma process_cinv : forall q s x s', Inv s -> NoOrphan s -> CInv s -> process q s = (x, s') -> CInv s'.
+Proof.
+  induction q as [|e rest IH]; intros s x s' I NO C H; simpl in H.
+  - inv_pair H. apply with_evq_cinv; assumption.
+  - assert (Inv (with_evq s rest)) as I' by (apply with_evq_inv; assumption).
+    assert (NoOrphan (with_evq s rest)) as NO' by (apply with_evq_orphan; assumption).
+    assert (CInv (with_evq s rest)) as C' by (apply with_evq_cinv; assumption).
+    destruct (handle_event e (with_evq s rest)) as [[y|] s1] eqn:E.
+    + inv_pair H. eapply handle_event_cinv; eauto.
+    + eapply IH; [| | |exact H].
+      * eapply handle_event_inv; eauto.
+      * eapply handle_event_orphan; eauto.
+      * eapply handle_event_cinv; eauto.
+Qed.
+
+Lemma transmit_closed : forall s gt e, closed (transmit s gt e) = closed s.
+Proof.
+  intros. unfold transmit. destruct (timer s); [destruct (negb (oz_eqb (timer_at s) gt))|]; destruct gt; reflexivity.
+Qed.
+Lemma transmit_soon_closed : forall s, closed (transmit_soon s) = closed s.
+Proof. intros. unfold transmit_soon. destruct (ttask s); reflexivity. Qed.
+
+Lemma frame_cinv : forall s s', futs s' = futs s -> closed s' = closed s -> CInv s -> CInv s'.
+Proof. intros s s' A B. unfold CInv, AllDone. rewrite A, B. tauto. Qed.
+
+Lemma step_cinv : forall s o x out s', Good s -> NoOrphan s -> CInv s -> step s o = (x, out, s') -> CInv s'.
+Proof.
+  intros s o x out s' [I _] NO C H. destruct o; simpl in H.
+  - destruct (process_events (with_evq s (evq s ++ evs))) as [[y|] s1] eqn:E; inv_pair H.
+    + eapply process_cinv; [| | |exact E]; [apply with_evq_inv|apply with_evq_orphan|apply with_evq_cinv]; assumption.
+    + apply (frame_cinv s1); [apply transmit_frame|apply transmit_closed|].
+      eapply process_cinv; [| | |exact E]; [apply with_evq_inv|apply with_evq_orphan|apply with_evq_cinv]; assumption.
+  - destruct (memz w (ltimers s)); simpl in H; [|inv_pair H; assumption].
+    destruct (timer_at s); [|inv_pair H; exact C].
+    match type of H with context [process_events ?S0] => destruct (process_events S0) as [[y|] s1] eqn:E end; inv_pair H.
+    + eapply process_cinv; [| | |exact E]; [exact I|exact NO|exact C].
+    + apply (frame_cinv s1); [apply transmit_frame|apply transmit_closed|].
+      eapply process_cinv; [| | |exact E]; [exact I|exact NO|exact C].
+  - destruct (soon s); inv_pair H; [assumption|].
+    match goal with |- CInv (transmit ?S0 _ _) => apply (frame_cinv S0); [apply transmit_frame|apply transmit_closed|exact C] end.
+  - inv_pair H. apply (frame_cinv s); [apply transmit_frame|apply transmit_closed|exact C].
+  - inv_pair H. apply (frame_cinv s); [apply transmit_frame|apply transmit_closed|exact C].
+  - destruct (closed s) eqn:Cl; inv_pair H; [assumption|].
+    intros X. rewrite transmit_closed in X. simpl in X. congruence.
+  - destruct (cwait s); [inv_pair H; assumption|]. destruct (connected s); [inv_pair H; assumption|].
+    destruct (closed s) eqn:Cl; inv_pair H; [assumption|]. intros X. simpl in X. congruence.
+  - inv_pair H. apply (frame_cinv (set_dirty s)); [apply transmit_soon_frame|apply transmit_soon_closed|exact C].
+  - destruct (memz sid (wclosing s)); inv_pair H; [assumption|].
+    match goal with |- CInv (transmit_soon ?S0) => apply (frame_cinv S0); [apply transmit_soon_frame|apply transmit_soon_closed|exact C] end.
+  - inv_pair H. exact C.
+  - inv_pair H. apply (frame_cinv s); [apply transmit_soon_frame|apply transmit_soon_closed|exact C].
+Qed.
+
+Lemma run_all : forall ops s, Good s -> NoOrphan s -> CInv s -> uids_fresh s ops ->
+  Good (run s ops) /\ NoOrphan (run s ops) /\ CInv (run s ops).
+Proof.
+  induction ops as [|o t IH]; intros s G NO C F; simpl; [auto|].
+  destruct F as [F1 F2]. destruct (step s o) as [[x out] s'] eqn:E. simpl in F2. apply IH.
+  - eapply step_good; eauto.
+  - eapply step_orphan; eauto.
+  - eapply step_cinv; eauto.
+  - assumption.
+Qed.
+
+(* once the closed event is set -- at whatever point of whatever schedule -- no waiter is pending, ever again *)
+Lemma no_waiter_pending_once_closed_l : forall ops, uids_fresh st_init ops ->
+  closed (run st_init ops) = true -> forall i, nth_error (futs (run st_init ops)) i <> Some FPending.
+Proof.
+  intros ops F Cl. destruct (run_all ops st_init good_init) as [_ [_ C]]; try assumption.
+  - unfold NoOrphan. simpl. intros [|i]; discriminate.
+  - intros X. discriminate.
+  - apply C. exact Cl.
+Qed.
+
+(* ... because the API calls made on a closed protocol finish at once: ping() raises ConnectionError, creates
+   no future and leaves the state untouched; wait_connected() returns (connected) or raises ConnectionError;
+   create_stream() hands out a reader that is already at EOF *)
+Lemma api_after_termination_l : forall s, closed s = true ->
+  (forall uid gt e, step s (OPing uid gt e) = (Some X_CONNECTION_ERROR, [], s)) /\
+  (cwait s = None -> step s OWaitConnected = (if connected s then (None, [1], s) else (Some X_CONNECTION_ERROR, [], s))) /\
+  (forall sid out s', step s (OCreateStream sid) = (None, out, s') ->
+     exists r, rd_get sid (readers s') = Some r /\ rd_eof r = true /\ rd_buf r = []).
+Proof.
+  intros s Cl. split; [|split].
+  - intros. simpl. rewrite Cl. reflexivity.
+  - intros C. simpl. rewrite C, Cl. destruct (connected s); reflexivity.
+  - intros sid out s' H. simpl in H. inv_pair H. rewrite Cl. simpl.
+    exists (mkReader sid [] true). split; [|auto].
+    induction (readers s) as [|r t IH]; simpl; [rewrite Z.eqb_refl; reflexivity|].
+    destruct (rd_sid r =? sid) eqn:E; simpl; [rewrite Z.eqb_refl; reflexivity|]. rewrite E. exact IH.
+Qed.
+
+(* the former counter-example [recv [ConnectionTerminated]; ping] now ends with ConnectionError and no future *)
+Example late_ping_fails_at_once :
+  let s := run st_init [ORecv [EvTerminated 0] None []] in
+  closed s = true /\ step s (OPing 1 None []) = (Some X_CONNECTION_ERROR, [], s) /\ futs s = [].
+Proof. simpl. repeat split. Qed.
 
 (* a non-trivial trace satisfying the freshness hypothesis *)
 Example uids_fresh_example :
